@@ -46,7 +46,7 @@ def run(ctx):
         tmap = [(t, 10 + t, 'p%d' % t) for t in rnd.sample([1, 2, 3], rnd.randrange(0, 4))]
         logs = None
         if i % 2:
-            logs = [(rnd.choice([0, 1, 2, 3, 7]), rnd.choice([11, 12, 13, 0]), rnd.choice(['p1', 'p2', 'other', '']))
+            logs = [(rnd.choice([0, 1, 2, 3, 7]), rnd.choice([11, 12, 13, 0]), rnd.choice(['p1', 'p2', 'other', '', '12', '501', '0']))       # a NAME may consist of digits (and coincide with a pid)
                     for _ in range(rnd.randrange(0, 6))]
         dump = Dump(w, stream, tmap, logs, nchunks=rnd.choice([1, 2, 3]))
         from pykdebugparser.pykdebugparser import PyKdebugParser
@@ -55,7 +55,7 @@ def run(ctx):
         for j in range(rnd.choice([1, 2, 3])):
             cfg = {'ftid': rnd.choice([0, 0, 1, 2, 3, 9]),
                    'fproc': rnd.choice([{'kind': 'none'}, {'kind': 'pid', 'pid': rnd.choice([11, 12, 0])},
-                                        {'kind': 'name', 'name': rnd.choice(['p1', 'other', 'nobody', ''])}]),
+                                        {'kind': 'name', 'name': rnd.choice(['p1', 'other', 'nobody', '', '12', '501', '0', '012'])}]),
                    'fclass': list(rnd.choice(CLASS_LISTS)), 'fsub': list(rnd.choice(SUB_LISTS))}
             apply_cfg(w, p, cfg, as_tuple=(i + j) % 2 == 0)
             op = 'logs' if logs is not None and rnd.random() < 0.4 else 'kevents'
